@@ -157,12 +157,13 @@ CLAIMED['C07'] = dict(
          'every dimension is in the selection, in increasing order whatever order or repetition the caller used; element (i,j) of the result is '
          'main[rows[i], cols[j]]; the eager post-processing (squeeze, atleast_2d, shape-based transposition) is the identity on EVERY r x c '
          'result (so square results keep their orientation and eager = lazy); negative / out-of-range / empty requests are refused; more than one '
-         'list index on the N-D path is refused. The N-D path (dask indexing of the cached view in either sort state, int drops the axis, '
-         'negative wrap, bounds checked first) has an executable model. Both models are compared with USIDataset.slice in coqc on random '
+         'list index on the N-D path is refused. N-D path (dask indexing of the cached view in either sort state, int drops the axis, negative wrap, '
+         'bounds checked first): theorem C07_nd_slice_elements - for any number of axes and any mixture of integers, slices and one list the result '
+         'has the expected shape and its element at j is the view element at the index with the chosen index put back on every sliced axis '
+         '(induction over the axes, one get-lemma per indexing step). Both models are compared with USIDataset.slice in coqc on random '
          'dictionaries (ints, slices with steps, lists/tuples/arrays, malformed stream); an oracle compares with numpy indexing of the N-D form.',
     design='5/C07',
-    note='Trusted: Coq kernel, dask/h5py indexing semantics as mirrored, harness. Partial: the N-D path has no element-wise theorem yet (model + '
-         'correspondence + oracle only). Two defects fixed (square result transposed, tuple selector in the N-D path).',
+    note='Trusted: Coq kernel, dask/h5py indexing semantics as mirrored, harness. Slice objects reach the model as resolved index lists (range() semantics trusted). Two defects fixed (square result transposed, tuple selector in the N-D path).',
     technique='Coq proof (list/matrix lemmas, case analysis on shapes) + in-Coq correspondence evaluation')
 
 CLAIMED['C20'] = dict(
